@@ -126,6 +126,8 @@ def service_patterns(quick: bool):
 def char_patterns(quick: bool):
     """Axis A2: width pattern of the characteristics of every service."""
     out = [(), (16,), (32,), (128,), ('b128',)]
+    # 'd16' / 'd128': a fixed UUID, so that it occurs more than once in a service (and in several services)
+    out += [('d16', 'd16'), ('d16', 16, 'd16'), (16, 'd16', 'd16'), ('d128', 16, 'd128'), ('d16', 128, 16)]
     out += list(itertools.product(W3, repeat=2))
     trip = list(itertools.product(W3, repeat=3))
     if quick:
@@ -172,7 +174,8 @@ def make_spec(svc, chr_pat, props_shift, desc_pat, dyn, rot=0):
                 else:
                     descs.append({'u': [dw, nn()], 'vl': VL_ROT[(k + 3) % len(VL_ROT)]})
                 k += 1
-            chars.append({'u': [cw, nn()], 'pr': props, 'vl': VL_ROT[k % len(VL_ROT)], 'dyn': dyn if (ci % 2 == 0) else 0, 'ds': descs})
+            cu = [16, 90] if cw == 'd16' else [128, 200] if cw == 'd128' else [cw, nn()]
+            chars.append({'u': cu, 'pr': props, 'vl': VL_ROT[k % len(VL_ROT)], 'dyn': dyn if (ci % 2 == 0) else 0, 'ds': descs})
             k += 1
         spec.append({'u': [w, 1 if same else nn()], 'p': prim, 'inc': list(inc), 'reg': reg, 'ch': chars})
     return spec
@@ -364,20 +367,110 @@ def run_link(g, model, link, f: Findings, info: dict, do_writes=True, light=Fals
             if attrs is not None:
                 info['procedures'] = info.get('procedures', 0) + 1
                 report('discover_attributes', model.exp_attributes(), [(a.handle, u128(a.type)) for a in attrs], ['handle', 'type'])
-            # 6. characteristics by UUID inside a service
+            # 6. the filtered forms: characteristics by UUID (every UUID of the service = first / middle / last /
+            #    duplicated, an absent UUID, the UUID written in another width, two UUIDs, all services at once), the
+            #    descriptors of what the filtered discovery returned, get_characteristics_by_uuid, discover_services(uuids)
+            def char_tuple(c):
+                return (c.handle, c.end_group_handle, u128(c.uuid), int(c.properties))
+
+            async def filtered(sp, msvc, uuid_objs, exp, form, where):
+                try:
+                    chars = await client.discover_characteristics(uuid_objs, sp)
+                except Exception as e:  # noqa: BLE001
+                    failed('discover_characteristics_by_uuid', e, where)
+                    return
+                info['procedures'] = info.get('procedures', 0) + 1
+                info['filtered'] = info.get('filtered', 0) + 1
+                info['compared'] = info.get('compared', 0) + len(exp)
+                for problem, handle, detail in M.compare(exp, [char_tuple(c) for c in chars], ['handle', 'end', 'uuid', 'props']):
+                    f.add('discover_characteristics_by_uuid', sig(problem, handle, form=form), f'discover_characteristics(uuids={[str(u) for u in uuid_objs]}){where} at ATT_MTU {m} ({bearer}): {detail}', link=link)
+                if sp is None:
+                    return
+                if [char_tuple(c) for c in sp.characteristics] != [char_tuple(c) for c in chars]:
+                    f.add('discover_characteristics_by_uuid', {'problem': 'service_proxy_list', 'form': form}, f'{where}: service.characteristics differs from the returned list', link=link)
+                mc_by = {c['handle']: c for c in msvc['chars']}
+                for c in chars:
+                    mc = mc_by.get(c.handle)
+                    if mc is None:
+                        continue
+                    # what a user does next with the result: descriptors (this is also what subscribe() does first)
+                    try:
+                        descs = await c.discover_descriptors()
+                    except Exception as e:  # noqa: BLE001
+                        failed('discover_descriptors_after_filter', e, where)
+                        continue
+                    info['procedures'] = info.get('procedures', 0) + 1
+                    for problem, handle, detail in M.compare(model.exp_descs(mc), [(d.handle, u128(d.type)) for d in descs], ['handle', 'type']):
+                        f.add('discover_descriptors_after_filter', sig(problem, handle, form=form),
+                              f'descriptors of characteristic 0x{c.handle:04X} found by uuid{where} at ATT_MTU {m} ({bearer}): {detail}', link=link)
+                for u in uuid_objs:
+                    got = sorted(c.handle for c in client.get_characteristics_by_uuid(u, sp))
+                    want = sorted(t[0] for t in exp if t[2] == u128(u))
+                    if got != want:
+                        f.add('get_characteristics_by_uuid', {'problem': 'set', 'form': form}, f'get_characteristics_by_uuid({u}){where} after the filtered discovery: handles {got}, expected {want}', link=link)
+
+            def other_width(raw):
+                """The same UUID value written in another width, if there is one."""
+                if len(raw) in (2, 4):
+                    return M.widen(raw)
+                if raw[:12] == M.BASE_TAIL_LE:
+                    return raw[12:14] if raw[14:] == b'\x00\x00' else raw[12:]
+                return None
+
+            absent = mk_uuid(M.uuid_raw(16, 0x7F))
             for sp in ([] if light else services):
                 msvc = model.service_at(sp.handle)
-                if msvc is None or msvc['end'] != sp.end_group_handle or not msvc['chars']:
+                if msvc is None or msvc['end'] != sp.end_group_handle:
                     continue
-                target = msvc['chars'][-1]
+                where = f' in service 0x{sp.handle:04X}'
+                all_chars = model.exp_chars(msvc)
+                distinct = []
+                for c in msvc['chars']:
+                    if c['uuid'] not in distinct:
+                        distinct.append(c['uuid'])
+                for raw in distinct:
+                    await filtered(sp, msvc, [mk_uuid(raw)], [t for t in all_chars if t[2] == M.widen(raw)], 'same', where)
+                    ow = other_width(raw)
+                    if ow is not None:
+                        await filtered(sp, msvc, [mk_uuid(ow)], [t for t in all_chars if t[2] == M.widen(raw)], 'other_width', where)
+                await filtered(sp, msvc, [absent], [], 'absent', where)
+                if len(distinct) >= 2:
+                    pair = [distinct[0], distinct[-1]]
+                    await filtered(sp, msvc, [mk_uuid(r) for r in pair], [t for t in all_chars if t[2] in [M.widen(r) for r in pair]], 'pair', where)
+            if not light and services:
+                # service=None: every service the client knows (= the primary services discovered above)
+                known = [model.service_at(x.handle) for x in client.services]
+                if all(k is not None for k in known):
+                    first = next((c['uuid'] for k in known for c in k['chars']), None)
+                    if first is not None:
+                        exp = [t for k in known for t in model.exp_chars(k) if t[2] == M.widen(first)]
+                        await filtered(None, None, [mk_uuid(first)], exp, 'all_services', ' in all services')
+            # discover_services(uuids): the filtered form of Discover All Primary Services
+            if not light:
+                done = set()
+                wanted = [s_['uuid'] for s_ in model.services if s_['primary']]
+                for raw in wanted + [M.uuid_raw(16, 0x7F)]:
+                    if raw in done:
+                        continue
+                    done.add(raw)
+                    forms = [('same', raw)] + ([('other_width', other_width(raw))] if other_width(raw) is not None else [])
+                    for form, r2 in forms:
+                        try:
+                            found = await client.discover_services([mk_uuid(r2)])
+                        except Exception as e:  # noqa: BLE001
+                            failed('discover_services_by_uuid', e)
+                            continue
+                        info['procedures'] = info.get('procedures', 0) + 1
+                        info['filtered'] = info.get('filtered', 0) + 1
+                        exp = [t for t in model.exp_services() if t[2] == M.widen(raw)]
+                        for problem, handle, detail in M.compare(exp, [(x.handle, x.end_group_handle, u128(x.uuid)) for x in found], ['handle', 'end', 'uuid']):
+                            f.add('discover_services_by_uuid', sig(problem, handle, form=form), f'discover_services(uuids=[{r2.hex()}]) at ATT_MTU {m} ({bearer}): {detail}', link=link)
                 try:
-                    chars = await client.discover_characteristics([mk_uuid(target['uuid'])], sp)
+                    found = await client.discover_service(absent)
+                    if found:
+                        f.add('discover_service', sig('extra', found[0].handle, form='absent'), f'discover_service(absent uuid) returned {len(found)} services', link=link)
                 except Exception as e:  # noqa: BLE001
-                    failed('discover_characteristics', e, ' by uuid')
-                    continue
-                info['procedures'] = info.get('procedures', 0) + 1
-                exp = [t for t in model.exp_chars(msvc) if t[2] == M.widen(target['uuid'])]
-                report('discover_characteristics', exp, [(c.handle, c.end_group_handle, u128(c.uuid), int(c.properties)) for c in chars], ['handle', 'end', 'uuid', 'props'], ' by uuid')
+                    failed('discover_service', e, ' absent uuid')
             # 7. read every attribute (light: values only; declarations do not depend on the link)
             for r in model.rows:
                 if not light or role_of(r) == 'value':
@@ -538,7 +631,7 @@ def w_discovery(arg):
         for link in links:
             st.case(('disc', idx, tuple(link), defaults))
         f.into(st)
-        for k in ('procedures', 'compared', 'reads', 'writes', 'links', 'mtu_agree', 'secondary_walked'):
+        for k in ('procedures', 'compared', 'filtered', 'reads', 'writes', 'links', 'mtu_agree', 'secondary_walked'):
             st.count(k, info.get(k, 0))
         for rs in info.get('resp_shapes', ()):
             st.add('response_opcode_size_classes', rs)
